@@ -98,7 +98,11 @@ sprinkled = st.lists(st.one_of(st.text(alphabet=NUC, min_size=1, max_size=40), s
 # the code points U+0000..U+0003: the core's k-mer tables read the raw bytes 0-3 as pre-encoded bases while its
 # CGR and oligo routines do not; whatever the core does, the binding must do the same (differential oracle)
 raw_sprinkled = st.lists(st.one_of(st.text(alphabet=NUC, min_size=1, max_size=30), st.sampled_from(["\x00", "\x01", "\x02", "\x03"])), min_size=1, max_size=20).map("".join)
-any_text = st.one_of(nuc_text, mixed_text, uni_text, sprinkled, raw_sprinkled)
+# characters worth meeting (py/confusables.txt): low byte equal to a nucleotide letter, case mappings / compatibility
+# and canonical decompositions containing one, look-alikes, white space and zero-width characters
+CONFUSABLES = [chr(int(l, 16)) for l in open(os.path.join(os.path.dirname(os.path.abspath(__file__)), "confusables.txt")) if l.strip()]
+confusable_sprinkled = st.lists(st.one_of(st.text(alphabet=NUC, min_size=1, max_size=30), st.sampled_from(CONFUSABLES)), min_size=1, max_size=24).map("".join)
+any_text = st.one_of(nuc_text, mixed_text, uni_text, sprinkled, raw_sprinkled, confusable_sprinkled)
 
 
 def long_text(w):
@@ -358,7 +362,7 @@ def drivers():
         "to-acgt": (k_st.flatmap(lambda k: st.fixed_dictionaries({"k": st.just(k), "x": st.one_of(st.integers(0, 4 ** k - 1), st.sampled_from([0, 4 ** k - 1]))})), 0.05),
         "minimiser-iterator": (wm_st().flatmap(lambda wm: st.fixed_dictionaries({"seq": st.one_of(any_text, long_text(wm[0])), "w": st.just(wm[0]), "m": st.just(wm[1])})), 0.22),
         "oligo": (st.fixed_dictionaries({"seqs": batch_st(any_text), "k": st.integers(1, 6), "norm": st.booleans()}), 0.17),
-        "cgr": (st.fixed_dictionaries({"seqs": batch_st(st.one_of(nuc_text, nuc_text, nuc_text, sprinkled, raw_sprinkled)), "s": S_ST}), 0.17),
+        "cgr": (st.fixed_dictionaries({"seqs": batch_st(st.one_of(nuc_text, nuc_text, nuc_text, sprinkled, raw_sprinkled, confusable_sprinkled)), "s": S_ST}), 0.17),
         "long-strings": (st.fixed_dictionaries({
             "unit": st.one_of(st.text(alphabet=NUC + "\u00e9\u20ac", min_size=1, max_size=40), st.text(alphabet="ACGT\u00e9", min_size=1, max_size=9), st.sampled_from(["\u00e9", "A\u00e9", "ACG\U0001F441T", "acgtN"])),
             "bytes": st.sampled_from([1 << 20, (1 << 20) + 7, 1_300_000, 2_100_000]),
